@@ -21,6 +21,8 @@ pub struct GenCfg {
     pub max_items: usize,
     /// probability weight (out of 10) that a fixture requests its own name (override pattern)
     pub self_dep_bias: u32,
+    /// several `pytest_plugins = ...` assignments per file (the last one wins)
+    pub multi_plugin_assignments: bool,
 }
 
 impl Default for GenCfg {
@@ -38,6 +40,7 @@ impl Default for GenCfg {
             noise: true,
             max_items: 4,
             self_dep_bias: 1,
+            multi_plugin_assignments: false,
         }
     }
 }
@@ -112,11 +115,11 @@ fn test_spec(cfg: &GenCfg) -> impl Strategy<Value = TestSpec> {
 
 fn import_spec(cfg: &GenCfg) -> impl Strategy<Value = ImportSpec> {
     (
-        prop_oneof![
-            4 => Just(ImportForm::Star),
-            3 => names_vec(cfg, 2).prop_map(|mut v| { if v.is_empty() { v.push(0); } ImportForm::Explicit(v) }),
-            2 => Just(ImportForm::Plugins),
-        ],
+        weighted(vec![
+            (4, Just(ImportForm::Star).boxed()),
+            (3, names_vec(cfg, 2).prop_map(|mut v| { if v.is_empty() { v.push(0); } ImportForm::Explicit(v) }).boxed()),
+            (if cfg.multi_plugin_assignments { 7 } else { 2 }, Just(ImportForm::Plugins).boxed()),
+        ]),
         1u8..=3,
         prop_oneof![1 => Just(0u8), 5 => Just(1u8), 2 => Just(2u8)],
     )
@@ -280,7 +283,9 @@ pub fn normalise(cfg: &GenCfg, ws: &mut WorkspaceSpec) {
                         }
                     }
                     if imp.form == ImportForm::Plugins {
-                        imp.level = 0;
+                        // for pytest_plugins `level` is reused as the assignment group (rendered in
+                        // ascending order, the last assignment wins)
+                        imp.level = if cfg.multi_plugin_assignments { imp.level % 3 } else { 0 };
                     }
                     if !out.contains(&Item::Import(imp.clone())) {
                         out.push(Item::Import(imp));
